@@ -285,3 +285,16 @@ def install_thread_seams():
     so.time = ThTime
     so.createPoller = create_th_poller
     so.PIPE_NOTIFIER_ENABLED = False
+
+
+def uninstall_thread_seams():
+    """Put the tick engine's seams back (a process that runs both engines one after the other - the self-test - must
+    not carry the thread engine's poller and time shims into later tick-engine runs)."""
+    if not _saved:
+        return
+    so, fq = M.so, M.fq
+    so.threading = _saved['threading_so']
+    fq.threading = _saved['threading_fq']
+    so.time = _saved['time_so']
+    so.createPoller = _saved['poller']
+
